@@ -104,22 +104,7 @@ func programs(repo, home string) []program {
 	ps = append(ps, program{"tiny spec / client only", tiny, clientOnly})
 	// reference cycles of every shape: any memoised or guarded graph walk answers differently
 	// depending on which member of a cycle is asked first (map order, template task order)
-	cycles := []byte(`{"openapi":"3.0.3","info":{"title":"t","version":"1"},"paths":{
- "/folder":{"post":{"operationId":"folder","requestBody":{"required":true,"content":{"application/json":{"schema":{"$ref":"#/components/schemas/Folder"}}}},"responses":{"200":{"description":"ok","content":{"application/json":{"schema":{"$ref":"#/components/schemas/Owner"}}}}}}},
- "/abc":{"post":{"operationId":"abc","requestBody":{"required":true,"content":{"application/json":{"schema":{"$ref":"#/components/schemas/B"}}}},"responses":{"200":{"description":"ok","content":{"application/json":{"schema":{"$ref":"#/components/schemas/A"}}}},"default":{"description":"e","content":{"application/json":{"schema":{"$ref":"#/components/schemas/C"}}}}}}},
- "/sum":{"post":{"operationId":"sum","requestBody":{"required":true,"content":{"application/json":{"schema":{"$ref":"#/components/schemas/Sum"}}}},"responses":{"200":{"description":"ok","content":{"application/json":{"schema":{"$ref":"#/components/schemas/M"}}}}}}},
- "/list":{"get":{"operationId":"list","responses":{"200":{"description":"ok","content":{"application/json":{"schema":{"type":"array","items":{"$ref":"#/components/schemas/Node"}}}}}}}}},
-"components":{"schemas":{
- "Folder":{"type":"object","properties":{"owner":{"$ref":"#/components/schemas/Owner"},"name":{"type":"string","minLength":1}}},
- "Owner":{"type":"object","properties":{"folders":{"type":"array","items":{"$ref":"#/components/schemas/Folder"}}}},
- "A":{"type":"object","properties":{"b":{"$ref":"#/components/schemas/B"},"c":{"$ref":"#/components/schemas/C"}}},
- "B":{"type":"object","properties":{"c":{"$ref":"#/components/schemas/C"},"a":{"$ref":"#/components/schemas/A"}}},
- "C":{"type":"object","properties":{"a":{"$ref":"#/components/schemas/A"},"n":{"type":"integer","minimum":0}}},
- "Sum":{"oneOf":[{"$ref":"#/components/schemas/Leaf"},{"$ref":"#/components/schemas/Node"}]},
- "Leaf":{"type":"object","required":["v"],"properties":{"v":{"type":"string","pattern":"^a"}}},
- "Node":{"type":"object","required":["kids"],"properties":{"kids":{"type":"array","items":{"$ref":"#/components/schemas/Sum"}},"next":{"$ref":"#/components/schemas/Node"},"alt":{"$ref":"#/components/schemas/Sum"}}},
- "M":{"type":"object","additionalProperties":{"$ref":"#/components/schemas/M2"}},
- "M2":{"type":"object","properties":{"m":{"$ref":"#/components/schemas/M"},"s":{"type":"string","maxLength":3},"self":{"$ref":"#/components/schemas/M2"}}}}}}`)
+	cycles := []byte(grammar.CyclesSpec)
 	ps = append(ps, program{"reference cycles / all features", cycles, allFeatures})
 	ps = append(ps, program{"order-sensitive shapes / all features", []byte(shapesSpec), allFeatures})
 	for _, f := range []string{"_testdata/positive/sample.json", "_testdata/examples/petstore-expanded.yml", "_testdata/positive/allOf.yml", "_testdata/positive/security.json", "_testdata/positive/webhooks.json", "_testdata/positive/http_responses.json", "_testdata/positive/parameters.json", "_testdata/positive/anyOf.json"} {
